@@ -569,6 +569,9 @@ def run_sharded(exe, lines, workdir, tag, extra=(), timeout=3000):
     return out
 
 
+FIX_BITS = {"C08-import-exponent-dropped": 0, "C08-bare-standard-unit-scale": 1, "C08-import-history-false-cycle": 2}
+
+
 def case_classes(w):
     """finding classes a world falls in (matchers over the case)"""
     cl = set()
@@ -578,7 +581,23 @@ def case_classes(w):
             cl.add("C08-import-exponent-dropped")
         if f["bare_std_scaled"]:
             cl.add("C08-bare-standard-unit-scale")
+        if f["import_revisit"]:
+            cl.add("C08-import-history-false-cycle")
     return cl
+
+
+def alt_settings(ctx, w, current):
+    """Inside the class of an OPEN finding the implementation may behave as the model with that repair switched the other
+    way.  A finding that is fixed (or unknown) excuses nothing: its switch stays as in the model's current_fixes."""
+    flip = sorted(FIX_BITS[c] for c in case_classes(w) if c in ctx.known)
+    out = []
+    for mask in range(1, 1 << len(flip)):
+        b = list(current)
+        for k, pos in enumerate(flip):
+            if mask >> k & 1:
+                b[pos] = "1" if b[pos] == "0" else "0"
+        out.append("".join(b))
+    return out
 
 
 def run(ctx):
@@ -598,6 +617,10 @@ def run(ctx):
     drv = vf.compile_driver(build, os.path.join(vf.ROOT, "harness/c08_driver.cpp"))
     mdl = vf.ocaml_driver("units")
     drv, mdl = _private_copy(ctx, drv, "c08_driver"), _private_copy(ctx, mdl, "units_model_driver")
+    current = vf.sh([mdl, "--fixes"], timeout=60)[1].strip()
+    if len(current) != 3 or set(current) - set("01"):
+        raise vf.BuildError("model driver does not report its fix setting: %r" % current)
+    ctx.notes.append("model compared with /repo under current_fixes (fx_import fx_std fx_pop) = %s" % current)
 
     nworlds = 4000 if quick else 30000
     worlds = []
@@ -652,10 +675,9 @@ def run(ctx):
         bad = compare_P(w, il[wi], ml[wi])
         if bad:
             # inside a known-finding class the implementation may already be repaired
-            cl = case_classes(w)
             ok = False
-            for bits in ("10", "01", "11", "00"):
-                if cl and not compare_P(w, il[wi], model_alt(lines[wi], bits)):
+            for bits in alt_settings(ctx, w, current):
+                if not compare_P(w, il[wi], model_alt(lines[wi], bits)):
                     ok = True
                     break
             if not ok:
@@ -721,9 +743,9 @@ def run(ctx):
     for k, (w, a, b) in enumerate(acases):
         evals += 2
         probs = check_A(w, a, b, ai[k], am[k], astats)
-        if any(fid is None for _, fid in probs) and case_classes(w):
-            # inside a known-finding class the implementation may already be repaired
-            for bits in ("10", "01", "11"):
+        if any(fid is None for _, fid in probs):
+            # inside the class of an open finding the implementation may already be repaired (or not yet)
+            for bits in alt_settings(ctx, w, current):
                 alt = check_A(w, a, b, ai[k], model_alt(alines[k], bits), dict(astats))
                 if all(fid is not None for _, fid in alt):
                     probs = alt
